@@ -629,25 +629,50 @@ def _check_find_config(ctx: Ctx) -> None:
         from ..cfg import must_edges
 
         guards = sorted(must_edges(flow.cfg, name_loop, r) or set(), key=lambda x: x[0].id)
-        has_isfile = any(truth and ".is_file()" in ast.unparse(a) for a, truth in must_atoms(guards))
+        # every way the guards (and the boolean helpers they call) can have let this return through
+        from .common import predicate_scenarios
+
+        scen = predicate_scenarios(prog, fi, guards)
+        has_isfile = bool(scen) and all(any(truth and ".is_file()" in ast.unparse(a) for a, truth, _f, _n in sc) for sc in scen)
         ctx.ob("R-CONFIG-K5", f"{fi.qual} :: {norm(r.ast)} requires an existing file", has_isfile,
                "a candidate is only returned when it exists as a file", where(fi, r))
-        py_T = any(lab == "T" and b.kind == "test" and "pyproject.toml" in ast.unparse(b.ast) for b, lab in guards)
-        py_F = any(lab == "F" and b.kind == "test" and "pyproject.toml" in ast.unparse(b.ast) for b, lab in guards)
-        if py_T or not py_F:
-            # this return may hand out a pyproject.toml: it needs the section test
+        sect_ok = True
+        may_be_pyproject = False
+        for sc in scen:
+            def says_pyproject(a: ast.AST) -> bool | None:
+                """True / False if the atom `a` (taken as true) says the name is / is not pyproject.toml"""
+                if isinstance(a, ast.Compare) and len(a.ops) == 1 and "pyproject.toml" in ast.unparse(a):
+                    if isinstance(a.ops[0], ast.Eq):
+                        return True
+                    if isinstance(a.ops[0], ast.NotEq):
+                        return False
+                return None
+            not_py = False
+            for a, truth, _f, _n in sc:
+                sp = says_pyproject(a)
+                if sp is not None and (sp is False) == truth:
+                    not_py = True  # `name != pyproject` holds, or `name == pyproject` is false
+            if not_py:
+                continue
+            may_be_pyproject = True
+            # this scenario may hand out a pyproject.toml: it needs the section test
             sect = False
-            for b, lab in guards:
-                if lab == "T" and b.kind == "test":
-                    # the test's value derives from a lookup of 'flowmark' under 'tool' (in a helper or in place)
-                    consts = {s_[1] for s_ in prog.slice(fi, b.ast, b).sources if s_[0] == "const"}
-                    for c in flow.calls_in(b):
-                        t = prog.resolve_call(fi, c)
-                        if isinstance(t, list) and prog.summary(t[0], True, 0) is not None:
-                            consts |= {s_[1] for s_ in prog.summary(t[0], True, 0).sources if s_[0] == "const"}
-                    if "'flowmark'" in consts and "'tool'" in consts:
-                        sect = True
-            ctx.ob("R-CONFIG-K5", f"{fi.qual} :: {norm(r.ast)} pyproject needs [tool.flowmark]", sect,
+            for a, truth, f_, n_ in sc:
+                if not truth:
+                    continue
+                consts = set()
+                if n_ is not None and hasattr(n_, "succ"):
+                    consts = {s_[1] for s_ in prog.slice(f_, a, n_).sources if s_[0] == "const"}
+                for c in [x for x in ast.walk(a) if isinstance(x, ast.Call)]:
+                    t = prog.resolve_call(f_, c)
+                    if isinstance(t, list) and prog.summary(t[0], True, 0) is not None:
+                        consts |= {s_[1] for s_ in prog.summary(t[0], True, 0).sources if s_[0] == "const"}
+                consts |= {repr(x.value) for x in ast.walk(a) if isinstance(x, ast.Constant) and isinstance(x.value, str)}
+                if "'flowmark'" in consts and "'tool'" in consts:
+                    sect = True
+            sect_ok = sect_ok and sect
+        if may_be_pyproject:
+            ctx.ob("R-CONFIG-K5", f"{fi.qual} :: {norm(r.ast)} pyproject needs [tool.flowmark]", sect_ok,
                    "a pyproject.toml may only be chosen when it has a [tool.flowmark] table", where(fi, r))
     ctx.require("R-CONFIG-K5", "successful returns of find_config_file", n_ret, 1)
     # the walk starts at the resolved start directory and moves to .parent
